@@ -20,6 +20,7 @@ import (
 
 func init() {
 	vhRegister("vh_C02_loadlinks", vh_C02_loadlinks)
+	vhRegister("vh_C15_loadlinks", vh_C15_loadlinks)
 	vhRegister("vh_C12_load", vh_C12_load)
 	vhRegister("vh_C12_load_twin", vh_C12_load_twin)
 	vhRegister("vh_C12_roundtrip", vh_C12_roundtrip)
@@ -82,6 +83,9 @@ func vhLoadMetadataStub(path string) (Metadata, error) {
 var vhLinkFiles map[string]*vhMeta
 
 // ---- C02 / C15: LoadLinksForLayout ----------------------------------------------
+
+// vh_C15_loadlinks: the same scenario counted for C15 (no crash on hostile directories).
+func vh_C15_loadlinks(a []int) { vh_C02_loadlinks(a) }
 
 // a = {#files in the directory, step name variant (0 plain, 1 with glob meta characters)}
 func vh_C02_loadlinks(a []int) {
